@@ -40,6 +40,7 @@ Definition uN_saturating_mul (bits a b : Z) : Z := Z.min (a * b) (2 ^ bits - 1).
 Definition uN_wrapping_add (bits a b : Z) : Z := (a + b) mod 2 ^ bits.
 Definition uN_wrapping_sub (bits a b : Z) : Z := (a - b) mod 2 ^ bits.
 Definition uN_max (bits : Z) : Z := 2 ^ bits - 1.
+Definition uN_checked_div (a b : Z) : option Z := if b =? 0 then None else Some (a / b).
 
 (* ---------- fixed width signed arithmetic (two's complement range [-2^(bits-1), 2^(bits-1))) ---------- *)
 Definition sN_in (bits x : Z) : bool := (- 2 ^ (bits - 1) <=? x) && (x <? 2 ^ (bits - 1)).
@@ -55,6 +56,21 @@ Definition sN_div {E} (bits : Z) (chk : bool) (a b : Z) : outcome E Z :=
   else if sN_in bits (Z.quot a b) then Ok (Z.quot a b) else Panic POverflow.
 (* TryFrom<signed or unsigned> for an unsigned integer of width bits *)
 Definition uN_try_from (bits x : Z) : option Z := if (0 <=? x) && (x <? 2 ^ bits) then Some x else None.
+
+(* u64::to_be_bytes *)
+Definition u64_to_be_bytes (x : Z) : list Z :=
+  map (fun i => (x / 2 ^ (8 * i)) mod 256) [7; 6; 5; 4; 3; 2; 1; 0].
+
+(* ---------- num_bigint::BigUint as a non-negative Z ---------- *)
+(* a % b panics on b = 0 *)
+Definition big_rem {E} (a b : Z) : outcome E Z := if b =? 0 then Panic PDivZero else Ok (a mod b).
+(* iter_u64_digits: base 2^64 digits, least significant first; zero has no digits *)
+Fixpoint big_digits_fuel (n : nat) (x : Z) : list Z :=
+  match n with
+  | O => []
+  | S n' => if x <=? 0 then [] else (x mod 2 ^ 64) :: big_digits_fuel n' (x / 2 ^ 64)
+  end.
+Definition big_u64_digits (x : Z) : list Z := big_digits_fuel (Z.to_nat (Z.log2 x) + 1) x.
 
 (* u16::to_le_bytes / from_le_bytes *)
 Definition u16_to_le_bytes (h : Z) : list Z := [h mod 256; h / 256].
@@ -72,6 +88,13 @@ Definition obind {E A B} (x : option A) (f : A -> outcome E (option B)) : outcom
 Definition obind_pure {A B} (x : option A) (f : A -> option B) : option B :=
   match x with Some a => f a | None => None end.
 
+(* Option::ok_or / anyhow Context on an Option *)
+Definition ok_or {E A} (o : option A) (e : E) : outcome E A :=
+  match o with Some a => Ok a | None => Err e end.
+(* Result::map_err *)
+Definition rmap_err {E F A} (f : E -> F) (x : outcome E A) : outcome F A :=
+  match x with Ok a => Ok a | Err e => Err (f e) | Panic p => Panic p end.
+
 (* assert!(b) *)
 Definition rassert {E} (b : bool) : outcome E unit := if b then Ok tt else Panic PAssert.
 
@@ -88,6 +111,62 @@ Fixpoint fold_m {E A S} (f : S -> A -> outcome E S) (l : list A) (s : S) : outco
   | [] => Ok s
   | a :: l' => let* s' := f s a in fold_m f l' s'
   end.
+(* a `for` loop whose body may `return v`: inl v = returned, inr s = ran to the end with state s *)
+Fixpoint fold_ret {E A S R} (f : S -> A -> outcome E (R + S)) (l : list A) (s : S) : outcome E (R + S) :=
+  match l with
+  | [] => Ok (inr s)
+  | a :: l' =>
+      let* r := f s a in
+      match r with
+      | inl v => Ok (inl v)
+      | inr s' => fold_ret f l' s'
+      end
+  end.
+(* v.get(i), v[i], iter().enumerate() *)
+Definition vec_get {A} (l : list A) (i : Z) : option A := nth_error l (Z.to_nat i).
+Definition vec_index {E A} (l : list A) (i : Z) : outcome E A :=
+  match nth_error l (Z.to_nat i) with Some a => Ok a | None => Panic PIndex end.
+Definition vec_enumerate {A} (l : list A) : list (Z * A) :=
+  combine (map Z.of_nat (seq 0 (length l))) l.
+(* bit_vec::BitVec::none *)
+Definition bitvec_none (b : list bool) : bool := negb (existsb (fun x => x) b).
+(* Iterator::any with a closure that may panic (stops at the first true) *)
+Fixpoint any_m {E A} (f : A -> outcome E bool) (l : list A) : outcome E bool :=
+  match l with
+  | [] => Ok false
+  | a :: l' => let* b := f a in if b then Ok true else any_m f l'
+  end.
+(* BTreeMap<K, V> as an association list (sorted by key where order matters) *)
+(* Iterator::filter with a closure that may panic; Iterator::sum over u64 (overflow as for +) *)
+Fixpoint filter_m {E A} (f : A -> outcome E bool) (l : list A) : outcome E (list A) :=
+  match l with
+  | [] => Ok []
+  | a :: l' => let* b := f a in let* r := filter_m f l' in Ok (if b then a :: r else r)
+  end.
+Fixpoint sum_u64_from {E} (chk : bool) (acc : Z) (l : list Z) : outcome E Z :=
+  match l with
+  | [] => Ok acc
+  | x :: l' => let* s := u64_add chk acc x in sum_u64_from chk s l'
+  end.
+Definition sum_u64 {E} (chk : bool) (l : list Z) : outcome E Z := sum_u64_from chk 0 l.
+(* BTreeMap::insert: sorted by key, an equal key is replaced *)
+Fixpoint bt_insert {K V} (ltb eqb : K -> K -> bool) (m : list (K * V)) (k : K) (v : V) : list (K * V) :=
+  match m with
+  | [] => [(k, v)]
+  | (k', v') :: m' =>
+      if eqb k' k then (k, v) :: m'
+      else if ltb k k' then (k, v) :: m
+      else (k', v') :: bt_insert ltb eqb m' k v
+  end.
+Fixpoint bt_get {K V} (eqb : K -> K -> bool) (m : list (K * V)) (k : K) : option V :=
+  match m with
+  | [] => None
+  | (k', v) :: m' => if eqb k' k then Some v else bt_get eqb m' k
+  end.
+Definition is_some_and_m {E A} (f : A -> outcome E bool) (o : option A) : outcome E bool :=
+  match o with Some a => f a | None => Ok false end.
+Definition bt_contains {K V} (eqb : K -> K -> bool) (m : list (K * V)) (k : K) : bool :=
+  existsb (fun kv => eqb (fst kv) k) m.
 Fixpoint filter_map {A B} (f : A -> option B) (l : list A) : list B :=
   match l with
   | [] => []
